@@ -38,24 +38,41 @@ func facts(root string) {
 				continue
 			}
 			keys := [][2]string{}
+			// string literals assigned to local names (whatever the names are)
+			lits := map[string]string{}
+			ast.Inspect(fd.Body, func(n ast.Node) bool {
+				if x, ok := n.(*ast.AssignStmt); ok && len(x.Lhs) == 1 && len(x.Rhs) == 1 {
+					if id, ok := x.Lhs[0].(*ast.Ident); ok {
+						if s, ok := strLit(x.Rhs[0]); ok {
+							lits[id.Name] = s
+						}
+					}
+				}
+				return true
+			})
 			ast.Inspect(fd.Body, func(n ast.Node) bool {
 				switch x := n.(type) {
-				case *ast.AssignStmt:
-					if len(x.Lhs) == 1 && len(x.Rhs) == 1 {
-						if id, ok := x.Lhs[0].(*ast.Ident); ok && id.Name == "prefix" {
-							if s, ok := strLit(x.Rhs[0]); ok {
+				case *ast.CallExpr:
+					// the prefix is what the attribute is tested against with strings.HasPrefix: a literal or a local name for one
+					if sel, ok := x.Fun.(*ast.SelectorExpr); ok && sel.Sel.Name == "HasPrefix" && len(x.Args) == 2 {
+						if s, ok := strLit(x.Args[1]); ok {
+							out["serPrefix"] = s
+						} else if id, ok := x.Args[1].(*ast.Ident); ok {
+							if s, ok := lits[id.Name]; ok {
 								out["serPrefix"] = s
 							}
 						}
 					}
 				case *ast.IfStmt:
-					// len(parts) > N
+					// the limit on the number of parts: len(<the split result>) > N (whatever the slice is called)
 					if be, ok := x.Cond.(*ast.BinaryExpr); ok {
 						if call, ok := be.X.(*ast.CallExpr); ok {
 							if id, ok := call.Fun.(*ast.Ident); ok && id.Name == "len" && len(call.Args) == 1 {
-								if a, ok := call.Args[0].(*ast.Ident); ok && a.Name == "parts" {
+								if _, ok := call.Args[0].(*ast.Ident); ok {
 									if v, ok := intExpr(be.Y); ok {
-										out["serPartsCond"] = fmt.Sprintf("len(parts) %s %d", be.Op, v)
+										if _, seen := out["serPartsCond"]; !seen && be.Op == token.GTR {
+											out["serPartsCond"] = fmt.Sprintf("len(parts) %s %d", be.Op, v)
+										}
 									}
 								}
 							}
@@ -213,6 +230,30 @@ func facts(root string) {
 	depths, safes := map[int]bool{}, map[string]bool{}
 	files, _ := filepath.Glob(filepath.Join(root, "merklize", "*.go"))
 	sort.Strings(files)
+	// package-level integer constants of the package (a depth may be given by name)
+	pkgConsts := map[string]int{}
+	for _, p := range files {
+		if strings.HasSuffix(p, "_test.go") || strings.HasSuffix(p, "verif_hooks.go") {
+			continue
+		}
+		rel, _ := filepath.Rel(root, p)
+		if f := parse(rel); f != nil {
+			for _, d := range f.Decls {
+				if gd, ok := d.(*ast.GenDecl); ok && (gd.Tok == token.CONST || gd.Tok == token.VAR) {
+					for _, sp := range gd.Specs {
+						vs := sp.(*ast.ValueSpec)
+						for i, nm := range vs.Names {
+							if i < len(vs.Values) {
+								if v, ok := intExpr(vs.Values[i]); ok && gd.Tok == token.CONST {
+									pkgConsts[nm.Name] = v
+								}
+							}
+						}
+					}
+				}
+			}
+		}
+	}
 	for _, p := range files {
 		if strings.HasSuffix(p, "_test.go") || strings.HasSuffix(p, "verif_hooks.go") {
 			continue
@@ -228,6 +269,8 @@ func facts(root string) {
 				if sel, ok := x.Fun.(*ast.SelectorExpr); ok && sel.Sel.Name == "NewMerkleTree" && len(x.Args) == 3 {
 					if v, ok := intExpr(x.Args[2]); ok {
 						depths[v] = true
+					} else if id, ok := x.Args[2].(*ast.Ident); ok && pkgConsts[id.Name] != 0 {
+						depths[pkgConsts[id.Name]] = true
 					} else {
 						depths[-1] = true // not a literal: the fact cannot be read off the source
 					}
